@@ -49,6 +49,8 @@ DISPATCH = {
 
 
 def run(ctx, obs):
+    from ..rules import sweeps
+    sweeps.run(ctx, obs, 'C03')
     prog = ctx.prog
     dispatch(ctx, obs)
     # AXIS: every measure and helper returns (A, B)
